@@ -53,10 +53,32 @@ def logToTop (st : PState) (uname : Str) : PState :=
   | .mk n props subs errs :: rest => { st with stack := .mk n props subs (errs ++ [uname]) :: rest }
   | [] => st
 
+mutual
+/-- forget the error lists -/
+def PComp.toComp : PComp → Comp
+  | .mk n props subs _ => .mk n props (PComp.toComps subs)
+def PComp.toComps : List PComp → List Comp
+  | [] => []
+  | c :: cs => c.toComp :: PComp.toComps cs
+end
+
+/-- the END branch's `tzp.cache_timezone_component(component)` raises (re-raised as ValueError
+    "Invalid VTIMEZONE"): the line reads `END:VTIMEZONE`, the popped component was opened by
+    `BEGIN:VTIMEZONE` (`isinstance(component, Timezone)`), it has a TZID, and building the time zone
+    object fails. `tzok c` abstracts "caching the time zone of this VTIMEZONE does not fail" (the
+    provider knows the id, or it is cached already, or several TZID lines, or `to_tz` succeeds). -/
+def tzFails (tzok : Comp → Bool) (endName : Str) : PComp → Bool
+  | .mk n props subs errs =>
+    endName == ['V','T','I','M','E','Z','O','N','E'] && n == ['V','T','I','M','E','Z','O','N','E'] &&
+    props.any (fun e => e.name == ['T','Z','I','D']) && !tzok (PComp.toComp (.mk n props subs errs))
+
 def textKinds : List Str := [['v','T','e','x','t'], ['v','C','a','t','e','g','o','r','y']]
 
-/-- one line of the loop; `none` = ValueError escapes from `from_ical` -/
-def pstep (dec : Dec) (st : PState) (line : Str) : Option PState :=
+/-- one line of the loop; `none` = ValueError escapes from `from_ical`.
+    (In cal.py the popped component is attached to its parent / appended to the result before the
+    caching call of the END branch; a failure there aborts the whole parse, so the order is
+    unobservable.) -/
+def pstep (tzok : Comp → Bool) (dec : Dec) (st : PState) (line : Str) : Option PState :=
   if st.stopped || line.isEmpty then some st else
   match parts line with
   | none =>
@@ -70,8 +92,11 @@ def pstep (dec : Dec) (st : PState) (line : Str) : Option PState :=
     else if uname == ['E','N','D'] then
       match st.stack with
       | [] => none
-      | c :: [] => some { st with stack := [], comps := st.comps ++ [c] }
-      | c :: .mk pn pp ps pe :: rest => some { st with stack := .mk pn pp (ps ++ [c]) pe :: rest }
+      | c :: rest =>
+        if tzFails tzok (upper vals) c then none else
+        match rest with
+        | [] => some { st with stack := [], comps := st.comps ++ [c] }
+        | .mk pn pp ps pe :: rest => some { st with stack := .mk pn pp (ps ++ [c]) pe :: rest }
     else
       let kind := forProperty name
       let vals := if Gen.fromIcalTextRaw && textKinds.contains kind then rawValue line else vals
@@ -90,20 +115,11 @@ def pstep (dec : Dec) (st : PState) (line : Str) : Option PState :=
         | none => if lenientName cn then some (logToTop st uname) else none
         | some texts => some (addToTop st uname (texts.map (fun t => ⟨kind, t, params⟩)))
 
-def prun (dec : Dec) : PState → List Str → Option PState
+def prun (tzok : Comp → Bool) (dec : Dec) : PState → List Str → Option PState
   | st, [] => some st
-  | st, l :: ls => match pstep dec st l with
+  | st, l :: ls => match pstep tzok dec st l with
     | none => none
-    | some st' => prun dec st' ls
-
-mutual
-/-- forget the error lists -/
-def PComp.toComp : PComp → Comp
-  | .mk n props subs _ => .mk n props (PComp.toComps subs)
-def PComp.toComps : List PComp → List Comp
-  | [] => []
-  | c :: cs => c.toComp :: PComp.toComps cs
-end
+    | some st' => prun tzok dec st' ls
 
 mutual
 /-- `[(c.name, e) for c in comp.walk() for e in c.errors]` -/
@@ -115,19 +131,21 @@ def PComp.errLogs : List PComp → List (Str × Str)
 end
 
 /-- `Component.from_ical(st, multiple)` on the unfolded lines -/
-def parseLinesP (dec : Dec) (multiple : Bool) (lines : List Str) : Option (List PComp) :=
-  match prun dec PState.init lines with
+def parseLinesP (tzok : Comp → Bool) (dec : Dec) (multiple : Bool) (lines : List Str) : Option (List PComp) :=
+  match prun tzok dec PState.init lines with
   | none => none
   | some st =>
     if multiple then some st.comps
     else if st.comps.length == 1 then some st.comps else none
 
 /-- components + error log -/
-def parseLines (dec : Dec) (multiple : Bool) (lines : List Str) : Option (List Comp × List (Str × Str)) :=
-  (parseLinesP dec multiple lines).map (fun cs => (PComp.toComps cs, PComp.errLogs cs))
+def parseLines (tzok : Comp → Bool) (dec : Dec) (multiple : Bool) (lines : List Str) :
+    Option (List Comp × List (Str × Str)) :=
+  (parseLinesP tzok dec multiple lines).map (fun cs => (PComp.toComps cs, PComp.errLogs cs))
 
 /-- from text: `Contentlines.from_ical` then the loop -/
-def parseText (dec : Dec) (multiple : Bool) (t : Str) : Option (List Comp × List (Str × Str)) :=
-  parseLines dec multiple (linesFromIcal t)
+def parseText (tzok : Comp → Bool) (dec : Dec) (multiple : Bool) (t : Str) :
+    Option (List Comp × List (Str × Str)) :=
+  parseLines tzok dec multiple (linesFromIcal t)
 
 end ICal
